@@ -222,9 +222,29 @@ class Evaluator:
         self.above = p2 * (4 if spec.get("noisy") else 1)
         self.size = size
         self.calls = 0
+        # "constant": one tensor object handed out on every call; "memo": one tensor object per position.  The object
+        # handed out is the evaluator's own; `pristine` keeps what it holds by contract (a private copy).
+        self.share = spec.get("share")
+        self.store = {}          # key -> (tensor handed out, pristine list of floats)
+        self.last = None         # (key, tensor, pristine) of the last call
         self.net = None
         if self.kind == "transformer":
             self.net = _make_transformer(self.seed)
+
+    def _shared_vector(self, n):
+        """a position-independent dyadic prior vector: uniform, or peaked on a few ids; every entry reaches the cutoff
+        also after the noise mix, so the evaluator's hypothesis holds at every position"""
+        import numpy as np
+        import random as _r
+        import torch
+        from tak.model import encoding
+        full = encoding.MAX_MOVE_ID
+        arr = np.full(full, 2.0 ** -12, dtype=np.float32)
+        if self.kind != "uniform":
+            rng = _r.Random(_h(self.seed, "shared"))
+            for i in rng.sample(range(n), min(n, 5)):
+                arr[i] = rng.choice([0.25, 0.125, 0.0625])
+        return torch.from_numpy(arr)
 
     def _value(self, key):
         if self.kind in ("pm1", "illegal_mass"):
@@ -243,6 +263,14 @@ class Evaluator:
         if self.kind == "transformer":
             probs, v = self.net.evaluate(pos)
             return probs.clone(), round(v * 64) / 64.0
+        if self.share:
+            skey = "constant" if self.share == "constant" else key
+            if skey not in self.store:
+                t = self._shared_vector(n)
+                self.store[skey] = (t, [float(x) for x in t.tolist()])
+            t, pristine = self.store[skey]
+            self.last = (skey, t, pristine)
+            return t, self._value(key)          # the evaluator's OWN tensor object
         full = {"max": encoding.MAX_MOVE_ID, "exact": n, "short": max(1, n - 3)}[self.len_mode]
         m = min(n, full)            # the part of the answer that lies inside the size's id table
         legal = sorted(i for i in legal_ids(pos) if i < m)
@@ -326,6 +354,7 @@ class Recorder:
         self.phase_noise = None
         self.noise_draws = 0
         self.keep = []           # keeps nodes alive so id() stays unique
+        self.mutation_seen = False
         self.pre_snap = {}       # id(node) -> snapshot of node.position just before populate() ran on it
         self.born = {}           # id(child) -> snapshot of its position right after the populate() that created it
 
@@ -421,13 +450,29 @@ class RecEval:
     def evaluate(self, pos):
         raw, v = self.inner.evaluate(pos)
         node, is_root = self.rec.cur if self.rec.cur else (None, False)
+        at_call = [float(x) for x in raw.tolist()]          # by value, at the time of the call
+        shared = getattr(self.inner, "share", None)
+        logged = at_call
+        if shared:
+            # the evaluator hands out its own tensor; what it answers by contract is its private pristine copy.  On a
+            # search that leaves the evaluator's tensors alone the two are the same; if they differ the tensor was
+            # written to by an earlier populate (reported, and the model replays the pristine answer)
+            logged = list(self.inner.last[2])
+            if at_call != logged:
+                i = next(k for k, (a, b) in enumerate(zip(at_call, logged)) if a != b)
+                self.rec.problems.append({
+                    "clause": "evaluator-output-mutated: the search wrote into a tensor the evaluator returned; the evaluator "
+                              "(" + shared + ") hands the same tensor out again, so this node is expanded from altered priors "
+                              "(child priors are the evaluator's priors renormalised)",
+                    "node_id": id(node) if node is not None else None, "position": j_snap(snap(pos)), "is_root": is_root,
+                    "first_differing_id": i, "handed_out": at_call[i], "evaluator_holds_by_contract": logged[i]})
         self.rec.evals.append({"node": id(node) if node is not None else None, "pos": snap(pos),
-                               "raw": [float(x) for x in raw.tolist()], "value": v, "is_root": is_root,
+                               "raw": logged, "value": v, "is_root": is_root,
                                "noise": None, "phase": len(self.rec.phases) - 1})
         if node is not None:
             self.rec.node_eval[id(node)] = len(self.rec.evals) - 1
             self.rec.keep.append(node)
-        return raw.clone(), v
+        return (raw if shared else raw.clone()), v
 
 
 def make_engine(cfg, evaluator, rec):
@@ -468,6 +513,18 @@ def make_engine(cfg, evaluator, rec):
                     rec.evals[-1]["noise"] = rec.cur_noise
                     for c in (node.children or []):
                         rec.born.setdefault(id(c), snap(c.position))
+                    inner = getattr(self.network, "inner", None)
+                    if getattr(inner, "share", None) and inner.last is not None and not rec.mutation_seen:
+                        skey, t, pristine = inner.last
+                        now = [float(x) for x in t.tolist()]
+                        if now != pristine:
+                            i = next(k for k, (a, b) in enumerate(zip(now, pristine)) if a != b)
+                            rec.mutation_seen = True
+                            rec.problems.append({
+                                "clause": "evaluator-output-mutated: populate() wrote into the tensor the evaluator returned "
+                                          "(the searched position's priors are the evaluator's; its tensor is not the search's to change)",
+                                "node_id": id(node), "position": j_snap(snap(node.position)), "is_root": bool(is_root),
+                                "first_differing_id": i, "after_populate": now[i], "evaluator_returned": pristine[i]})
                 rec.cur = None
     return RecMCTS(cfg, RecEval(evaluator, rec))
 
@@ -601,11 +658,20 @@ def do_search(spec, record_solver=False, select=False, after_phase=None):
     root = mcts.Node(position=pos, move=None)
     tree = root
     expected = root_snap             # what the current tree's position must be, derived from root_snap only
-    trace = {"spec": spec, "root_pos": pos, "root_snap": root_snap, "rec": rec, "crash": None, "select": None, "n": n}
+    trace = {"spec": spec, "root_pos": pos, "root_snap": root_snap, "rec": rec, "crash": None, "select": None, "n": n,
+             "old_trees": [], "old_roots": [], "phase0": 0, "evals0": 0}
     abs_path = []                    # child indices from the first root to the current tree
     with rec.patched(record_solver):
         try:
             for j, ph in enumerate(spec["phases"]):
+                if ph.get("restart"):
+                    # a new search from scratch on the same position, the evaluator object (and what it holds) shared
+                    trace["old_trees"].append((tree, expected))
+                    trace["old_roots"].append(root)
+                    pos = rebuild(root_snap)
+                    root = mcts.Node(position=pos, move=None)
+                    tree, expected, abs_path = root, root_snap, []
+                    trace["root_pos"], trace["phase0"], trace["evals0"] = pos, j, len(rec.evals)
                 actual = []
                 for pick in ph["path"]:
                     if not tree.children:
@@ -658,6 +724,28 @@ def do_search(spec, record_solver=False, select=False, after_phase=None):
                              "position_before": j_snap(root_snap), "position_after": takio.j_pos(pos)})
     trace["tree"] = tree
     trace["tree_expected"] = expected
+    # the evaluator's stored tensors, re-read after the search, against what it holds by contract
+    if getattr(ev, "share", None):
+        for skey, (t, pristine) in ev.store.items():
+            now = [float(x) for x in t.tolist()]
+            if now != pristine and not rec.mutation_seen:
+                i = next(k for k, (a, b) in enumerate(zip(now, pristine)) if a != b)
+                rec.mutation_seen = True
+                rec.problems.append({"clause": "evaluator-output-mutated: a tensor the evaluator returned differs after the search",
+                                     "first_differing_id": i, "after_search": now[i], "evaluator_returned": pristine[i]})
+    # node ids in the driver's findings -> paths from the root of the tree they belong to
+    paths = {}
+
+    def index(node, path):
+        paths[id(node)] = path
+        for i, c in enumerate(node.children or []):
+            index(c, path + [i])
+    for k, r0 in enumerate(trace["old_roots"]):
+        index(r0, [f"search{k}"])
+    index(root, [])                  # paths from the node the (last) search was started on
+    for pr in rec.problems:
+        if "node_id" in pr:
+            pr["node_path"] = paths.get(pr.pop("node_id"))
     return trace
 
 
@@ -802,9 +890,14 @@ def audit(trace, max_problems=5):
         for j, (i, c) in enumerate(zip(want, node.children)):
             walk(c, path + [j], legal[i])
 
+    for k, (old_tree, old_expected) in enumerate(trace.get("old_trees", [])):
+        walk(old_tree, [f"search{k}"], old_expected)
     if trace.get("tree") is not None:
         walk(trace["tree"], [], trace["tree_expected"])
-    problems.extend(rec.problems)      # what the driver saw while searching (visit counts, crashes), after the tree's clauses
+    # what the driver saw while searching (visit counts, crashes) after the tree's clauses - except a write into the
+    # evaluator's tensor, which is the cause of whatever the tree shows and comes first
+    problems[:0] = [p for p in rec.problems if p["clause"].startswith("evaluator-output-mutated")]
+    problems.extend(p for p in rec.problems if not p["clause"].startswith("evaluator-output-mutated"))
     stats["evals"] = len(rec.evals)
     stats["simulations"] = sum(len(p["css"]) for p in rec.phases)
     return problems, stats
@@ -868,7 +961,7 @@ def c_phase(ph, with_calls):
 def c_evals(trace):
     n = trace["n"]
     out = []
-    for e in trace["rec"].evals:
+    for e in trace["rec"].evals[trace.get("evals0", 0):]:
         raw = e["raw"][: n + 2]          # two entries beyond the table when the evaluator gives them
         out.append(f"({c_qvec(raw)}, {c_fq(e['value'])})")
     return clist(out)
@@ -877,7 +970,7 @@ def c_evals(trace):
 def case_term(trace):
     spec = trace["spec"]
     mix = spec["noise"]["mix"] if spec.get("noise") else 0.25
-    phs = clist([c_phase(p, False) for p in trace["rec"].phases])
+    phs = clist([c_phase(p, False) for p in trace["rec"].phases[trace.get("phase0", 0):]])
     return (f"({c_fme(f32(spec['cutoff']))}, {c_fme(mix)}, {takio.c_pos(rebuild(trace['root_snap']))}, {phs}, "
             f"{c_evals(trace)}, {c_onode(trace['tree'])})")
 
@@ -1033,7 +1126,33 @@ def stacked_capstone_specs(rng, repeat=1):
     return specs
 
 
-def gen_specs(run, count, sizes, max_budget, transformer=2, smash=(), near_terminal=(), stacked=0):
+def shared_eval_specs(rng, count):
+    """evaluators that hand out THEIR OWN tensor: the same object on every call (constant uniform / peaked vector) or
+    one object per position (memoising), root noise on; fresh trees, re-used trees, and a second search from scratch with
+    the same evaluator object"""
+    specs = []
+    for j in range(count):
+        size = 3 if j % 3 else 4
+        b = rng.randint(4, 18)
+        shape = j % 4
+        phases = [{"path": [], "limit": b}]
+        if shape == 1:
+            phases.append({"path": [rng.randrange(1000)], "limit": rng.randint(2, b)})
+        elif shape == 2:
+            phases.append({"path": [], "limit": rng.randint(3, 14), "restart": True})
+        elif shape == 3:
+            phases.append({"path": [], "limit": rng.randint(3, 12), "restart": True})
+            phases.append({"path": [rng.randrange(1000)], "limit": rng.randint(2, 10)})
+        specs.append({"size": size, "opening": random_opening(rng, size, rng.choice([0, 1, 2, 4])),
+                      "eval": {"kind": ["uniform", "peaked"][(j // 2) % 2], "seed": rng.randrange(1 << 30), "len": "max",
+                               "dyadic": True, "share": ["constant", "memo"][j % 2]},
+                      "sampler": {"mode": ["torch", "uniform", "skew"][j % 3], "seed": rng.randrange(1 << 30)},
+                      "noise": {"alpha": 0.3, "mix": rng.choice([0.25, 0.5, 0.125]), "seed": rng.randrange(1 << 30)},
+                      "C": 4.0, "cutoff": 1e-6, "phases": phases, "tag": "evaluator-hands-out-its-own-tensor"})
+    return specs
+
+
+def gen_specs(run, count, sizes, max_budget, transformer=2, smash=(), near_terminal=(), stacked=0, shared=0):
     rng = run.rng
     specs = []
     kinds = ["uniform", "random", "random", "drift", "dense", "illegal_mass", "cutoff_edge", "pm1"]
@@ -1079,6 +1198,8 @@ def gen_specs(run, count, sizes, max_budget, transformer=2, smash=(), near_termi
         specs.extend(near_terminal_specs(rng, near_terminal))
     if stacked:
         specs.extend(stacked_capstone_specs(rng, stacked))
+    if shared:
+        specs.extend(shared_eval_specs(rng, shared))
     return specs
 
 
@@ -1102,11 +1223,11 @@ def tie_cutoff(run):
 
 def volumes(run):
     if run.quick:
-        return dict(count=130, sizes=[3, 4], max_budget=60, transformer=2, smash=(6, 1),
-                    near_terminal=((3, 6), (4, 4)), stacked=1)
+        return dict(count=110, sizes=[3, 4], max_budget=60, transformer=2, smash=(6, 1),
+                    near_terminal=((3, 6), (4, 4)), stacked=1, shared=8)
     # sizes 5 and 6 are a quarter of the searches (their trees and id tables are large)
     return dict(count=800, sizes=[3, 4, 3, 4, 5, 3, 4, 6], max_budget=200, transformer=6, smash=(40, 12),
-                near_terminal=((3, 60), (4, 40), (5, 20)), stacked=6)
+                near_terminal=((3, 60), (4, 40), (5, 20)), stacked=6, shared=80)
 
 
 # --------------------------------------------------------------------------
